@@ -342,6 +342,9 @@ META = (META[0] + ' CONDORDER (counted C-string routines test the count before t
 META = (META[0] + ' INTFB (the constant-evaluation fallback of popcount is evaluated from its source for every 8-bit value and boundary values of the wider types against the bit count).', META[1])
 
 
+META = (META[0] + ' LITMASK over _bit/ (no mask or power of two is built by shifting an int / unsigned literal by a run-time count: for a 64-bit argument a count of 32 or more is undefined, so constant evaluation fails and run time wraps; control in fixtures/arith_pos.hpp).', META[1])
+
+
 def run(chk, tier):
     db = D.load("plain")
     census = []
@@ -473,6 +476,8 @@ def run(chk, tier):
     _AR.negmin_area(chk, D.load("checks"), [""])      # NEGMIN: `-min` is not a constant expression although the run-time call wraps
     _AR.positive_controls(chk, D, ("NEGMIN",))
     nzb_rule(chk, db)
+    from . import c17 as _c17
+    _c17.litmask_rule(chk, db, ('_bit/',))      # LITMASK (zero expected on the library)
     aliasmode_rule(chk, db)
     from ..rules import intfb as _IFB
     if _IFB.check(chk, db) < 1:      # INTFB: the integer fallback of popcount computes popcount
